@@ -124,7 +124,7 @@ impl Report {
             ("seed", J::Int(seed as i128)),
             ("profile", J::s(profile)),
             ("evaluations", J::Int(self.evaluations as i128)),
-            ("distinct_nontrivial", J::Int(self.nontrivial.len() as i128)),
+            ("distinct_nontrivial", J::Int(self.nontrivial.len() as i128 + self.get("nontrivial_by_construction") as i128)),
             ("samples", J::Arr(self.samples.clone())),
             ("violations", J::Arr(viol)),
             ("violation_total", J::Int(self.violation_counts.values().sum::<u64>() as i128)),
